@@ -81,6 +81,11 @@ func genExplore(rnd *rand.Rand, mode string) exploreCfg {
 		if rnd.Intn(2) == 0 {
 			c.delTo = 2 + rnd.Intn(2)
 		}
+		// readers of low heights: they return at once, but they read through the caches while the deleter works
+		for i := rnd.Intn(3); i > 0; i-- {
+			c.wants = append(c.wants, 1+rnd.Intn(3))
+		}
+		c.late = true
 		return c
 	}
 	nr := 1 + rnd.Intn(3)
@@ -587,6 +592,25 @@ func exploreOnce(t *testing.T, id int, rnd *rand.Rand, mode string) (rec0 Record
 				}
 				cancel()
 			}
+			// ... and the same after a clean restart on the same datastore
+			store.VerifHook = nil
+			rs.Gate = nil
+			_ = st.Stop(bg)
+			synctest.Wait()
+			rec0.RestartHead, rec0.RestartTail = -1, -1
+			if st2, err := store.NewStore[*vh.Header](rs, store.WithWriteBatchSize(c.bsz)); err == nil && st2.Start(bg) == nil {
+				synctest.Wait()
+				rec0.RestartHead, rec0.RestartTail = 0, 0
+				if hd, err := st2.Head(bg); err == nil {
+					rec0.RestartHead = int(hd.Height())
+				}
+				if tl, err := st2.Tail(bg); err == nil {
+					rec0.RestartTail = int(tl.Height())
+				}
+				_ = st2.Stop(bg)
+				synctest.Wait()
+			}
+			return
 		}
 		store.VerifHook = nil
 		rs.Gate = nil
